@@ -270,7 +270,7 @@ func vsBlobSubWorld(s *verifsim.Sim) {
 	if err := svc.Start(context.Background()); err != nil {
 		panic(err)
 	}
-	stopped, feedClosed := false, false
+	stopped, feedClosed, restarted := false, false, false
 	height := uint64(1)
 	var subs []*vsSub
 	for i := 0; i < nsub; i++ {
@@ -407,6 +407,26 @@ func vsBlobSubWorld(s *verifsim.Sim) {
 					}
 				}
 				_ = svc.Stop(context.Background())
+			}})
+		}
+		if stopped && !restarted && !feedClosed {
+			// the node starts the same service object again: subscriptions made from now on must work
+			alts = append(alts, verifsim.Alt{Label: "service starts again", Weight: 3, Do: func() {
+				s.Fault("service-restart")
+				restarted = true
+				if err := svc.Start(context.Background()); err != nil {
+					s.Violate("c20-service-restart-fails", "Start", "Start of a stopped blob service fails: %v", err)
+					return
+				}
+				ctx, cancel := context.WithCancel(context.Background())
+				ch, err := svc.Subscribe(ctx, nss[3])
+				if err != nil {
+					cancel()
+					s.Violate("c20-service-restart-fails", "Subscribe", "Subscribe after a restart of the blob service fails: %v", err)
+					return
+				}
+				subs = append(subs, &vsSub{ns: nss[3], ch: ch, cancel: cancel, from: height + 1})
+				stopped = false
 			}})
 		}
 		if !faultFree && !feedClosed {
